@@ -106,6 +106,15 @@ Config random_config(Rng &r) {
   c.comp = (int)r.below(2); c.filter = (int)r.below(3); c.cache = (int)r.below(3); c.mof = r.chance(0.3) ? 74 : 1000;
   c.mmap = (int)r.below(2); c.reuse = (int)r.below(2); c.paranoid = (int)r.below(2); c.cmp = r.chance(0.6) ? 0 : (int)r.range(1, 3);
   c.verify = (int)r.below(2); c.fillc = r.chance(0.8); c.rlimit = r.pick(rl);
+  // now and then a value outside what lcdb accepts as is (it clamps), or at the far end of the legal range
+  int x = (int)r.below(100);
+  if (x < 3) c.mof = x == 0 ? 0 : x == 1 ? -1 : 1000000;
+  else if (x < 6) c.block = x == 3 ? 65536 : x == 4 ? (1 << 20) : 1;
+  else if (x < 8) c.wbs = x == 6 ? 1 : (size_t)1 << 30;
+  else if (x < 10) c.mfs = x == 8 ? 1 : (size_t)1 << 30;
+  else if (x < 13) c.filter = x == 10 ? 3 : x == 11 ? 4 : 5;   // bloom with 44, 1 and 0 bits per key
+  else if (x < 16) c.cache = 3;                                // 256 KiB: some blocks stay, some are evicted
+  else if (x < 18) c.restart = x == 16 ? 3 : 1000;
   return c;
 }
 
@@ -346,10 +355,10 @@ void DbOptions::set(const Config &c, bool create) {
   if (bloom) { ldb_bloom_destroy(bloom); bloom = nullptr; }
   if (c.cmp == 3) o.filter_policy = NULL; // a bytewise bloom filter is not compatible with a comparator that equates different byte strings
   else if (c.filter == 1) o.filter_policy = ldb_bloom_default;
-  else if (c.filter == 2) { bloom = ldb_bloom_create(2); o.filter_policy = bloom; }
+  else if (c.filter >= 2) { static const int bits[] = {2, 44, 1, 0}; bloom = ldb_bloom_create(bits[(c.filter - 2) % 4]); o.filter_policy = bloom; }
   else o.filter_policy = NULL;
   if (cache) { ldb_lru_destroy(cache); cache = nullptr; }
-  if (c.cache == 1) cache = ldb_lru_create(0); else if (c.cache == 2) cache = ldb_lru_create(4096);
+  if (c.cache == 1) cache = ldb_lru_create(0); else if (c.cache == 2) cache = ldb_lru_create(4096); else if (c.cache == 3) cache = ldb_lru_create(256 << 10);
   o.block_cache = cache;
 }
 
